@@ -321,19 +321,15 @@ impl<'de> serde::Deserializer<'de> for SeqDeserializer {
         V: Visitor<'de>,
     {
         let len = self.iter.len();
-        if len == 0 {
-            visitor.visit_unit()
+        let ret = visitor.visit_seq(&mut self)?;
+        let remaining = self.iter.len();
+        if remaining == 0 {
+            Ok(ret)
         } else {
-            let ret = visitor.visit_seq(&mut self)?;
-            let remaining = self.iter.len();
-            if remaining == 0 {
-                Ok(ret)
-            } else {
-                Err(DeserializerError::invalid_length(
-                    len,
-                    &"fewer elements in array",
-                ))
-            }
+            Err(DeserializerError::invalid_length(
+                len,
+                &"fewer elements in array",
+            ))
         }
     }
 
